@@ -340,6 +340,11 @@ impl World {
         privs: &BTreeMap<Pubkey, (bool, bool)>,
     ) -> Result<(), ExecErr> {
         if ix.program_id != marginfi::ID {
+            // a registered foreign program (`add_program`) at top level is a no-op that touches no marginfi
+            // account (compute budget, swap venues inside a liquidation bracket)
+            if self.accounts.get(&ix.program_id).map(|a| a.executable).unwrap_or(false) {
+                return Ok(());
+            }
             return Err(ExecErr::Program("unknown-program".into()));
         }
         stubs::set_clock(self.clock_ts, self.slot);
